@@ -67,7 +67,14 @@ claim("C08", "Intervals",
       "D2: any affected set between Must and May is accepted for slices/areas; multiplicity of overlapping penalty intervals is not judged. Trusted: TLC, Json module.",
       "DESIGN.md §5 C08")
 
+claim("C06", "Labels",
+      "TLA+ specs Labels.tla (combination of megacomplex matrices as a function label -> column; Equivariant / SharedAdd / DistinctSeparate / MixedDims invariants checked exhaustively by TLC; every case replayed on MatrixProvider.calculate_dataset_matrix) and LabelPerms.tla (declaration-order permutation space of the builtin types; real models built in identity and permuted order, every labelled output compared by label, objective unchanged)",
+      "Exhaustive over 1-3 lattice megacomplexes x label sequences x index dependence x scale at the matrix-combination level; for decay, decay-parallel, damped-oscillation, pfid and spectral every permutation of 2-4 declared labels (thorough; a stratified sample in quick) with/without IRF, alone, with a baseline and with a label-sharing second megacomplex, also with the megacomplex list reversed.",
+      "Label order itself is not judged. decay-sequential order is semantic and not permuted. One parameter point per type. Trusted: TLC, xarray reindex_like for by-label alignment.",
+      "DESIGN.md §5 C06")
+
 ENGINES = [
+    {"name": "Labels", "path": "spec/Labels.tla", "serves_properties": ["C06"], "kind_free_text": "TLA+ Labels.tla + LabelsEmit, LabelPerms.tla; harness/c06.py"},
     {"name": "Intervals", "path": "spec/Intervals.tla", "serves_properties": ["C08"], "kind_free_text": "TLA+ interval envelope (Must/May) + IntervalsEmit; harness/c08.py"},
     {"name": "Objective", "path": "spec/Objective.tla", "serves_properties": ["C02", "C03", "C13", "C14"], "kind_free_text": "TLA+ staged exact pipeline (Objective.tla, ObjectiveCases.tla) over LinAlg.tla; harness/objective.py, lattice.py, c02.py, c03.py, c13.py, c14.py"},
     {"name": "ClpLink", "path": "spec/ClpLink.tla", "serves_properties": ["C09", "C02"], "kind_free_text": "TLA+ alignment state machine + ClpLinkEmit; harness/c09.py, harness/lattice.py"},
